@@ -518,6 +518,18 @@ func ruleReduceOrder(w *World, r *RuleResult) {
 		r.anchorMissing("(*Context).Reduce: call of (*Decimal).Reduce")
 		return
 	}
+	// the strip of the result: a Reduce into a local scratch value (taken for its count only) is not one
+	if len(f.Params) > 1 {
+		var onD []*ssa.Call
+		for _, s := range strips {
+			if _, scratch := s.Common().Args[0].(*ssa.Alloc); !scratch {
+				onD = append(onD, s)
+			}
+		}
+		if len(onD) > 0 {
+			strips = onD
+		}
+	}
 	reach := w.reachesFn(rounderRound)
 	isRound := func(in ssa.Instruction) bool {
 		c, ok := in.(ssa.CallInstruction)
